@@ -216,6 +216,12 @@ func (br *xmpReader) readTagHeader(parent Tag) (tag Tag, err error) {
 			} else if buf[i+1] == '?' {
 				err = io.EOF
 				return
+			} else if buf[i+1] == '!' && i+3 < len(buf) && buf[i+2] == '-' && buf[i+3] == '-' {
+				// A comment is not a tag: skip it.
+				tag.t = noTag
+				br.a = false
+				err = br.skipComment(i + 4)
+				return
 			} else {
 				tag.t = startTag
 			}
@@ -252,6 +258,28 @@ func (br *xmpReader) readTagHeader(parent Tag) (tag Tag, err error) {
 		err = errors.Wrap(err, "Tag Header (discard)")
 	}
 	return
+}
+
+// skipComment discards the n bytes up to and including the "<!--" that opens
+// a comment, and the comment up to and including the "-->" that closes it.
+func (br *xmpReader) skipComment(n int) (err error) {
+	if _, err = br.Discard(n); err != nil {
+		return errors.Wrap(err, "Comment (discard)")
+	}
+	var c byte
+	for dashes := 0; ; {
+		if c, err = br.r.ReadByte(); err != nil {
+			return errors.Wrap(err, "Comment")
+		}
+		if c == '>' && dashes >= 2 {
+			return nil
+		}
+		if c == '-' {
+			dashes++
+		} else {
+			dashes = 0
+		}
+	}
 }
 
 // readTagValue reads the Tag's Value from the bufReader. Returns
